@@ -14,8 +14,9 @@
 static const char *STR_EMPTY = "", *STR_S = "s", *STR_ESC = "q\"b\\s\nnl\t/";
 
 static occaType make(const std::string &t, const std::string &v) {
-  const bool MIN = v == "MIN", M1 = v == "M1", ONE = v == "ONE", MAX = v == "MAX";
-#define INT(T, lo, hi) (T)(MIN ? (lo) : M1 ? -1 : ONE ? 1 : MAX ? (hi) : 0)
+  const bool MIN = v == "MIN", M1 = v == "M1", ONE = v == "ONE", MAX = v == "MAX", HALF = v == "HALF";
+  // HALF (unsigned types only) = 2^(w-1) = hi/2 + 1
+#define INT(T, lo, hi) (T)(MIN ? (lo) : M1 ? -1 : ONE ? 1 : MAX ? (hi) : HALF ? ((hi) / 2 + 1) : 0)
   if (t == "i8") return occaInt8(INT(int8_t, INT8_MIN, INT8_MAX));
   if (t == "u8") return occaUInt8(INT(uint8_t, 0, UINT8_MAX));
   if (t == "i16") return occaInt16(INT(int16_t, INT16_MIN, INT16_MAX));
@@ -95,6 +96,16 @@ static std::string observe(int h, occaType x, const std::string &as) {
       occaType n = occaJsonGetNumber(x, T);
       s += ",\"ntag\":" + mj::quote(tagName(n.type)) + ",\"v\":" + mj::quote(valueText(n));
     }
+    // the same number read as the widest types (independent of the type it was stored with)
+    s += ",\"i64\":" + mj::quote(valueText(occaJsonGetNumber(x, OCCA_INT64))) +
+         ",\"u64\":" + mj::quote(valueText(occaJsonGetNumber(x, OCCA_UINT64))) +
+         ",\"f64\":" + mj::quote(valueText(occaJsonGetNumber(x, OCCA_DOUBLE)));
+  }
+  if (B || N || S || A || O) {
+    // the text form of the value at this handle (for an owner handle: the whole document)
+    const char *text = occaJsonDump(x, 0);
+    s += ",\"dump\":" + mj::quote(text);
+    ::free((void*) text);
   }
   if (S) s += ",\"v\":" + mj::quote(occaJsonGetString(x));
   if (A) s += ",\"n\":" + std::to_string(occaJsonArraySize(x));
